@@ -155,6 +155,58 @@ def random_history(rng, name, n):
     return ops
 
 
+def revisit_histories(name, did):
+    """directed histories in which an attribute LEAVES a value and RETURNS to it while something else changes in between
+    (A-B-A patterns: per-value caches, memoised grids, 'nothing changed' shortcuts keyed by the value assigned)"""
+    p0 = T.init_object(name, did)
+    A = [o for o in R.alphabet(name, did) if o[0] == 'set' and o[1] != 'sides']
+    out = []
+    for a in A:
+        attr = a[1]
+        v0 = did if attr == 'data' else getattr(p0, attr)
+        if attr != 'data' and not isinstance(v0, (type(None), bool, int, float, str)):
+            continue
+        back = ('set', attr, v0)
+        if back == a:
+            continue
+        for b in A:
+            if b[1] == attr:
+                continue
+            out.append([('read',), a, b, back])
+            out.append([('read',), a, ('read',), b, back])
+            out.append([a, ('read',), back, b, a])
+            out.append([('read',), a, b, ('read',), back, ('conv', 'twosided')])
+    return out
+
+
+NP_TYPES = {'NFFT': ['int64', 'int32', 'int16'], 'lag': ['int64', 'int32'], 'ar_order': ['int64', 'int32', 'int16'], 'ma_order': ['int64', 'int32'],
+            'sampling': ['float64']}
+# not in the stream, on purpose: scale_by_freq = numpy.bool_(True) (the code tests `scale_by_freq is True`, so a numpy boolean silently means
+# "no scaling"; the documented type is bool) and single-precision sampling rates (df and the axis are then single precision)
+
+
+def numpy_typed(rng, ops):
+    """the same history with numeric / boolean values given as numpy scalars (what `for order in np.arange(2, 6): p.ar_order = order` assigns)"""
+    out = []
+    for o in ops:
+        if o[0] == 'set' and o[1] in NP_TYPES and isinstance(o[2], (bool, int, float)) and not (o[1] == 'NFFT' and isinstance(o[2], float)):
+            ts = NP_TYPES[o[1]]
+            out.append(('setnp', o[1], o[2], ts[int(rng.integers(0, len(ts)))]))
+        else:
+            out.append(o)
+    return out
+
+
+def typed_job(args):
+    """fresh-object oracle only (the generated machine's value domain has no numpy scalars)"""
+    name, did, ops = args
+    try:
+        p, _, bad = R.run_history(name, did, ops)
+    except Exception as e:
+        return {'name': name, 'did': did, 'ops': ops, 'skip': repr(e)}
+    return {'name': name, 'did': did, 'ops': ops, 'bad': bad}
+
+
 def random_job(args):
     name, did, ops = args
     try:
@@ -171,6 +223,8 @@ def signature(ops):
     for o in ops:
         if o[0] == 'set':
             out.append('set:' + o[1] + ('=' + str(o[2]) if o[1] == 'sides' else ''))
+        elif o[0] == 'setnp':
+            out.append('set:%s=numpy.%s(%r)' % (o[1], o[3], o[2]))
         elif o[0] == 'reassign':
             out.append('reassign:' + o[1])
         elif o[0] == 'conv':
@@ -194,7 +248,7 @@ def conv_config(name, did, ops):
 def violation_key(name, did, ops, clause):
     if clause.startswith('converted') and any(o[0] == 'conv' for o in ops):
         return '%s/get_converted_psd/%s' % (clause, conv_config(name, did, ops))
-    attrs = sorted(set((o[1] if o[0] == 'set' else 'reassign-' + o[1]) for o in ops if o[0] in ('set', 'reassign')))
+    attrs = sorted(set((o[1] if o[0] == 'set' else 'numpy-' + o[1] if o[0] == 'setnp' else 'reassign-' + o[1]) for o in ops if o[0] in ('set', 'setnp', 'reassign')))
     return '%s/%s/%s-%s' % (clause, '+'.join(attrs) or 'no-assignment', R.base_of(name), 'real' if did.startswith('r') else 'complex')
 
 
@@ -297,8 +351,23 @@ def run(ctx):
         name = R.CLASS_NAMES[i % len(R.CLASS_NAMES)]
         did = ['r0', 'c0', 'r1', 'c1'][int(rng.integers(0, 4))]
         rjobs.append((name, did, random_history(rng, name, int(rng.integers(4, 11)))))
+    # ---- directed A-B-A histories (an attribute returns to an earlier value while something else changed in between)
+    nrev = 0
+    for name in R.CLASS_NAMES:
+        for did in ('r0', 'c0'):
+            H = revisit_histories(name, did)
+            if ctx.tier == 'quick':
+                H = [H[int(i)] for i in rng.choice(len(H), size=min(len(H), 40), replace=False)]
+            for ops in H:
+                rjobs.append((name, did, ops)); nrev += 1
+    ctx.count('revisit_histories', nrev)
     with ProcessPoolExecutor(max_workers=14) as ex:
         rres = list(ex.map(random_job, rjobs, chunksize=8))
+    # ---- the random histories again with numeric / boolean values given as numpy scalars
+    tjobs = [(n, d, numpy_typed(rng, ops)) for n, d, ops in rjobs[:nrand]]
+    tjobs = [j for j in tjobs if any(o[0] == 'setnp' for o in j[2])]
+    with ProcessPoolExecutor(max_workers=14) as ex:
+        tres = list(ex.map(typed_job, tjobs, chunksize=8))
     traces = {}
     for r in rres:
         if 'skip' in r:
@@ -306,6 +375,16 @@ def run(ctx):
         ctx.count('random/%s' % R.base_of(r['name']))
         ctx.evaluations += 1
         traces.setdefault((r['name'], r['did']), []).append((r['ops'], r['trace']))
+        for c, w, n in r['bad']:
+            ops = r['ops'][:n]
+            k = violation_key(r['name'], r['did'], ops, c)
+            if k not in found or len(ops) < found[k][0]:
+                found[k] = (len(ops), r['name'], r['did'], ops, w, c)
+    for r in tres:
+        if 'skip' in r:
+            ctx.count('numpy_typed/skipped_estimator_error'); continue
+        ctx.count('numpy_typed/%s' % R.base_of(r['name']))
+        ctx.evaluations += 1
         for c, w, n in r['bad']:
             ops = r['ops'][:n]
             k = violation_key(r['name'], r['did'], ops, c)
